@@ -214,6 +214,7 @@ enum Op {
     End { w: u32, t: TaskId, how: u32 }, // 0 ok, 1 fail, 2 follow stop
     FailNext { w: u32, t: TaskId },
     Timer,
+    Prune,
 }
 
 fn opt_u32(o: &Option<u32>) -> String {
@@ -252,6 +253,7 @@ fn op_sym(o: &Op) -> String {
         Op::End { w, t, how } => format!("END {w} {} {}", tid(*t), ["ok", "fail", "stop"][*how as usize]),
         Op::FailNext { w, t } => format!("FAILNEXT {w} {}", tid(*t)),
         Op::Timer => "TIMER".into(),
+        Op::Prune => "PRUNE".into(),
     }
 }
 
@@ -305,6 +307,7 @@ fn parse_op(line: &str) -> Op {
         "END" => Op::End { w: t[1].parse().unwrap(), t: parse_tid(t[2]), how: match t[3] { "ok" => 0, "fail" => 1, _ => 2 } },
         "FAILNEXT" => Op::FailNext { w: t[1].parse().unwrap(), t: parse_tid(t[2]) },
         "TIMER" => Op::Timer,
+        "PRUNE" => Op::Prune,
         _ => panic!("bad op {line}"),
     }
 }
@@ -314,6 +317,8 @@ struct H {
     req_tx: futures::channel::mpsc::UnboundedSender<tako::Result<FromClientMessage>>,
     resp_rx: futures::channel::mpsc::UnboundedReceiver<ToClientMessage>,
     events: Rc<RefCell<Vec<String>>>,
+    /// the last prune request the journal thread received: (live jobs, live workers), sorted
+    pruned: Rc<RefCell<Option<(Vec<u32>, Vec<u32>)>>>,
     launch_seen: std::collections::HashMap<u32, usize>,
     out: String,
     dead: bool,
@@ -377,6 +382,8 @@ impl H {
         // journal sink: what the journal thread would do with the stream of messages
         let mut journal_rx = std::mem::replace(&mut hq.journal_rx, tokio::sync::mpsc::unbounded_channel().1);
         let ev2 = events.clone();
+        let pruned: Rc<RefCell<Option<(Vec<u32>, Vec<u32>)>>> = Default::default();
+        let pr2 = pruned.clone();
         tokio::task::spawn_local(async move {
             while let Some(m) = journal_rx.recv().await {
                 match m {
@@ -388,7 +395,12 @@ impl H {
                     EventStreamMessage::FlushJournal(cb) => {
                         let _ = cb.send(());
                     }
-                    EventStreamMessage::PruneJournal { callback, .. } => {
+                    EventStreamMessage::PruneJournal { callback, live_jobs, live_workers } => {
+                        let mut js: Vec<u32> = live_jobs.iter().map(|j| j.as_num()).collect();
+                        js.sort();
+                        let mut ws: Vec<u32> = live_workers.iter().map(|w| w.as_num()).collect();
+                        ws.sort();
+                        *pr2.borrow_mut() = Some((js, ws));
                         let _ = callback.send(());
                     }
                     EventStreamMessage::ReplayJournal(_) => {}
@@ -405,7 +417,7 @@ impl H {
             let sink = resp_tx.sink_map_err(|e| tako::Error::from(format!("{e:?}")));
             client_rpc_loop(sink, req_rx, server_dir, state_ref, &senders, Arc::new(Notify::new())).await;
         });
-        H { hq, req_tx, resp_rx, events, launch_seen: Default::default(), out: String::new(), dead: false }
+        H { hq, req_tx, resp_rx, events, pruned, launch_seen: Default::default(), out: String::new(), dead: false }
     }
 
     async fn client(&mut self, m: FromClientMessage) -> Option<ToClientMessage> {
@@ -679,6 +691,15 @@ impl H {
                     Op::Timer => {
                         tokio::time::advance(Duration::from_secs(3601)).await;
                     }
+                    Op::Prune => {
+                        *this.pruned.borrow_mut() = None;
+                        let r = this.client(FromClientMessage::PruneJournal).await;
+                        let l = |v: &Vec<u32>| if v.is_empty() { "-".to_string() } else { join(v.iter(), ",") };
+                        resp_line = Some(match (r, this.pruned.borrow().as_ref()) {
+                            (Some(ToClientMessage::Finished), Some((js, ws))) => format!("= PRUNE jobs={} workers={}", l(js), l(ws)),
+                            (other, p) => format!("= PRUNE ?{} {}", other.is_some(), p.is_some()),
+                        });
+                    }
                 }
                 settle().await;
             });
@@ -874,6 +895,9 @@ async fn gen_trace(id: u64, rng: &mut Rng, tier: &str) -> String {
             if rng.chance(1, 40) {
                 cands.push((2, Op::Close { job: rng.range(1, 5) as u32 }));
                 cands.push((2, Op::Cancel { job: rng.range(1, 5) as u32 }));
+            }
+            if rng.chance(1, 12) {
+                cands.push((2, Op::Prune));
             }
             if cfg.faults && rng.chance(1, 10) {
                 cands.push((2, Op::Timer));
